@@ -2725,6 +2725,20 @@ func (c *Ctx) capAddRule(rule string) {
 			return
 		}
 		n++
+		// the one-statement form: caps[TrimPrefix(tok, "-")] = !HasPrefix(tok, "-")
+		if neg, isN := mu.Value.(*ssa.UnOp); isN && neg.Op == token.NOT {
+			if hp, isC := neg.X.(*ssa.Call); isC && calleeName(&hp.Call) == "strings.HasPrefix" {
+				if tp, isT := mu.Key.(*ssa.Call); isT && calleeName(&tp.Call) == "strings.TrimPrefix" && tp.Call.Args[0] == hp.Call.Args[0] {
+					p1, ok1 := constString(hp.Call.Args[1])
+					p2, ok2 := constString(tp.Call.Args[1])
+					if ok1 && ok2 && p1 == "-" && p2 == "-" {
+						n++
+						r.Add(rule, fmt.Sprintf("cap-add#%d", n), c.InstrPos(mu), c.FuncKey(add), "Add records \"-name\" as name disabled and any other token as enabled", true, "caps[TrimPrefix(tok, \"-\")] = !HasPrefix(tok, \"-\")")
+						return
+					}
+				}
+			}
+		}
 		kc, isK := mu.Value.(*ssa.Const)
 		if !isK || kc.Value == nil {
 			r.Add(rule, fmt.Sprintf("cap-add#%d", n), c.InstrPos(mu), c.FuncKey(add), "a token is recorded as enabled (true) or disabled (false) by a constant", false, "stored value is computed: "+mu.Value.String())
